@@ -274,10 +274,12 @@ def py_oracle(ops, outs):
             connected = True
         elif t[0] == "send" and connected and o[:2] != ["=", "bad-op"]:
             submitted += unhx(t[1])
-        elif t[0] == "w" and o[1] == "net":
+        elif (t[0] == "w" and o[1] == "net") or (t[0] in ("rxz", "eof") and o[1] == "plain"):
             f = fields(out)
+            is_w = t[0] == "w"
+            net_hex = o[2] if is_w else o[o.index("net") + 1]
             calls = [] if f["calls"] == "-" else [tuple(int(x) for x in c.split(":")) for c in f["calls"].split(",")]
-            answers = [] if t[1] == "-" else t[1].split(",")
+            answers = [] if (not is_w or t[1] == "-") else t[1].split(",")
             backpressure = any(a != off for off, a in calls)
             hard = any(idx < len(answers) and answers[idx] == "err" for idx in range(len(calls)))
             was = connected
@@ -290,7 +292,7 @@ def py_oracle(ops, outs):
             cause = "lost-bytes" if short_seen else "dup-deflate" if again_seen else None
             if not srv_dead:
                 try:
-                    srv_plain += srv.decompress(unhx(o[2]))
+                    srv_plain += srv.decompress(unhx(net_hex))
                 except zlib.error as e:
                     srv_dead = True
                     fail(i, cause or "corrupt-stream", "the server cannot inflate what it received (%s)" % e)
@@ -300,12 +302,10 @@ def py_oracle(ops, outs):
                   and len(srv_plain) < int(f["acked"])):
                 fail(i, "not-flushed", "server can inflate %d of the %s bytes taken from the queue, the lower "
                      "transport accepted every write of this iteration" % (len(srv_plain), f["acked"]))
-            if was and not connected and not hard:
-                fail(i, "spurious-disconnect", "disconnected although the lower transport reported no hard error")
-        elif t[0] in ("rxz", "eof") and o[1] == "plain":
-            f = fields(out)
-            was = connected
-            connected = f["st"] == "c"
+            if is_w:
+                if was and not connected and not hard:
+                    fail(i, "spurious-disconnect", "disconnected although the lower transport reported no hard error")
+                continue
             if t[0] == "rxz" and not peer_bad:
                 try:
                     expected += cli.decompress(unhx(t[1]))
@@ -315,13 +315,19 @@ def py_oracle(ops, outs):
                     peer_bad = True
             delivered += unhx(o[2])
             if not peer_bad:
+                rets = [] if f["rets"] == "-" else [int(x) for x in f["rets"].split(",")]
                 if not expected.startswith(delivered):
                     fail(i, "read-mismatch", "delivered plaintext is not what the server deflated")
-                elif was and not connected and t[0] == "rxz":
+                elif was and not connected and t[0] == "rxz" and rets and rets[-1] <= 0:
                     fail(i, "spurious-eof", "a fragment of a healthy stream closed the connection (read returned %s)"
                          % f["rets"])
                 elif connected and len(delivered) < len(expected):
-                    fail(i, "read-stall", "delivered %d of %d bytes, nothing pending" % (len(delivered), len(expected)))
+                    if f.get("pend") == "1":
+                        fail(i, "pending-ignored", "delivered %d of %d bytes; input waits in the decompression "
+                             "buffer (pending=1) but the socket is drained" % (len(delivered), len(expected)))
+                    else:
+                        fail(i, "read-stall", "delivered %d of %d bytes; socket drained, pending=0: the rest is "
+                             "inside zlib" % (len(delivered), len(expected)))
         elif t[0] == "end" and out.startswith("= end live=") and out != "= end live=0":
             fail(i, "leak", "%s block(s) still allocated after xmpp_conn_release" % out.split("=")[-1])
     return fails
@@ -342,7 +348,7 @@ def size_class(n):
     return "xxl"
 
 
-def tags(case, outs):
+def tags(case, outs):  # noqa: C901
     res = []
     for op, out in zip(case.ops, outs):
         t = op.split(" ")
